@@ -4,5 +4,5 @@ C=/verif/tools/confirm_seed.sh
 run() { [ -d /var/tmp/seed13_$1/_seed ] || return; echo "#### $1"; $C /var/tmp/seed13_$1 "$2" "$3" $4 2>&1 | grep -E "^==|^ok|^FAIL|^---|CONFIRM" | cut -c1-200; }
 run C14 'TestSeedC14' './bridgesync/' './bridgesync/...'
 run C16 'TestSeedC16' './lastgersync/' './lastgersync/...'
-[ -n "$C04PKG" ] && run C04 'TestSeedC04' "$C04PKG" "$C04TESTS"
+run C04 'TestSeedC04' './bridgesync/' './db/... ./tree/... ./lastgersync/... ./bridgesync/...'
 run C07 'TestSeedC07' './bridgesync/' './tree/... ./bridgesync/... ./l1infotreesync/...'
